@@ -1222,7 +1222,8 @@ class Timezone(Component):
             )
             transitions.extend(component_transitions)
 
-        transitions.sort()
+        # in the order of the onsets: local time - TZOFFSETFROM
+        transitions.sort(key=lambda transition: (transition[0] - transition[1], transition))
         transition_times = [
             transtime - osfrom for transtime, osfrom, _, _ in transitions
         ]
